@@ -156,7 +156,7 @@ ALLOC_TABLE = {
     "LengthDelimited as Stream::poll_next|alloc:BytesMut::resize#1": {"type": "u16", "why": "frame length decoded as u16 (MAX_LEN_BYTES = 2): at most 16383/65535 bytes"},
     "LengthDelimited as Sink::start_send|alloc:BytesMut::reserve#1": {"need": [["MAX_FRAME_SIZE", ">=", "len"]], "why": "outgoing frame, bounded by MAX_FRAME_SIZE"},
     "Substream as Stream::poll_next|alloc:BytesMut::zeroed#1": {"need": [["this.codec", "is", "Identity"]], "why": "locally configured identity frame size"},
-    "Substream as Stream::poll_next|alloc:BytesMut::zeroed#2": {"need": [["max_size", ">=", "size"]], "unless_none": r"max_size|UnsignedVarint",
+    "Substream as Stream::poll_next|alloc:BytesMut::zeroed#2": {"need": [["this.codec@UnsignedVarint.0@Some.0", ">=", "size"]], "unless_none": r"max_size|UnsignedVarint",
         "why": "remote-chosen length compared with the codec maximum whenever one is configured; without a maximum the up-front allocation is min(size, constant) (C04 R04.1, evaluated under C19 as well)"},
     "Substream as Stream::poll_next|alloc:BytesMut::resize#1": {"min_with": r"UNBOUNDED_READ_CHUNK$",
         "why": "the frame buffer grows by a constant step only when the bytes received so far have filled it: memory follows what the peer really sent"},
